@@ -10,8 +10,13 @@ for f in glob.glob(os.path.join(root, "evidence", "C*.json")):
 p = os.path.join(root, "DESIGN.md")
 lines = open(p).read().split("\n")
 out = []
+inside = False
 for ln in lines:
-    m = re.match(r"^\| (C\d\d) \| (.*) \| ([^|]*) \| ([^|]*) \| ([^|]*) \|$", ln)
+    if ln.startswith("### 9.2"):
+        inside = True
+    elif ln.startswith("### 9.3"):
+        inside = False
+    m = inside and re.match(r"^\| (C\d\d) \| (.*) \| ([^|]*) \| ([^|]*) \| ([^|]*) \|$", ln)
     if m and m.group(1) in ev:
         d = ev[m.group(1)]
         st = f"{d['coverage']['states']:,}".replace(",", " ")
